@@ -243,8 +243,10 @@ Sources(st) == (IF st.op = "Mark" THEN {st.src[1]} ELSE SeqToSet(st.src))
 \* domains in the type marks of a Mark reference (printed as safe by withMark);
 \* the safe parts of an error formatted into a safe-details string
 ExtraS(st, sl, tn) ==
+  \* (the mark of the reference: its own chain's type marks, or - when the reference is
+  \* itself a marked error - the type marks it carries)
   (IF st.op = "Mark" /\ Len(st.src) = 2 /\ ~IsNil(sl[st.src[2]])
-   THEN UNION {WordsIn(Ext(Chain(sl[st.src[2]])[i])) : i \in 1..Len(Chain(sl[st.src[2]]))} ELSE {})
+   THEN LET ts == MarkOf(sl[st.src[2]], reg).types IN UNION {WordsIn(ts[i].x) : i \in 1..Len(ts)} ELSE {})
   \cup (IF st.op = "WithSafeDetails" THEN UNION {tn[i].s : i \in PartRefs(st.parts)} ELSE {})
 
 \* (EnsureNotInDomain is HandledInDomain when it triggers, the identity otherwise)
@@ -407,7 +409,7 @@ TreesOf(vs, rg) == IF vs = <<>> THEN <<>> ELSE <<TreeOf(vs[1], rg)>> \o TreesOf(
 TreeOf(v, rg) ==
   [ty |-> v.ty, fam |-> Fam(v, rg), ext |-> Ext(v), text |-> Text(v),
    k |-> IF IsWrap(v) THEN "w" ELSE IF IsMulti(v) THEN "m" ELSE "l",
-   kids |-> TreesOf(v.kids, rg)]
+   kids |-> TreesOf(v.kids, rg), hid |-> TreesOf(v.hid, rg)]
 
 \* Is(e, r) for every reference r: all nodes (visible and hidden) of all slots
 RefPool(sl) == Concat([i \in 1..NSlots |-> AllNodes(sl[i])])
